@@ -860,7 +860,7 @@ fn corpus() -> Vec<(PipeCase, Vec<usize>, Option<Expected>)> {
     let otd = Some(OTD);
     let deep = |n: usize| nested("[", "]", "", n);
     let d125 = format!("data: {}\n\ndata: {}\n\ndata: {}\n\n", deep(125), deep(126), deep(128));
-    vec![
+    let mut all = vec![
         // S11 first half: E2 82 'A' with the boundary right before E2
         mk(b"data: x\xE2\x82A\n\n", &[7]),
         // S11 second half: an event after [DONE] in the same chunk / in the next one
@@ -902,7 +902,30 @@ fn corpus() -> Vec<(PipeCase, Vec<usize>, Option<Expected>)> {
         ev(&d125, 0, &[200], &[(None, &deep(125)), (None, &deep(126)), (None, &deep(128))]),
         // numbering right below 2^64: two frames end at u64::MAX
         ev("data: {\"type\":\"response.output_text.delta\",\"delta\":\"z\"}\n\n", u64::MAX - 2, &[3], &[(None, "{\"type\":\"response.output_text.delta\",\"delta\":\"z\"}")]),
-    ]
+    ];
+    // compat validation: ids are made up for the VALIDATORS only (function_call by call_id / index, function_call_output
+    // by output_<call_id> / output_<index>, response.output items by position, function_call_arguments events by
+    // item_<output_index>); the frames carry the payload as it came
+    {
+        let payloads = [
+            "{\"type\":\"response.output_item.added\",\"sequence_number\":1,\"output_index\":2,\"item\":{\"type\":\"function_call\",\"call_id\":\"c1\",\"name\":\"ls\",\"arguments\":\"{}\",\"status\":\"completed\"}}",
+            "{\"type\":\"response.output_item.done\",\"sequence_number\":2,\"output_index\":2,\"item\":{\"id\":\"\",\"type\":\"function_call\",\"name\":\"ls\",\"arguments\":\"{}\",\"status\":\"completed\"}}",
+            "{\"type\":\"response.output_item.done\",\"sequence_number\":3,\"output_index\":1.0,\"item\":{\"type\":\"function_call_output\",\"call_id\":\"c1\",\"output\":\"o\"}}",
+            "{\"type\":\"response.output_item.done\",\"sequence_number\":4,\"output_index\":7,\"item\":{\"type\":\"function_call_output\",\"call_id\":\"\",\"output\":\"o\"}}",
+            "{\"type\":\"response.completed\",\"sequence_number\":5,\"response\":{\"id\":\"resp_1\",\"output\":[{\"type\":\"function_call\",\"name\":\"a\",\"arguments\":\"\"},{\"id\":\"keep\",\"type\":\"function_call\",\"name\":\"b\",\"arguments\":\"\"},{\"type\":\"function_call_output\",\"call_id\":\"c2\",\"output\":\"\"},{\"type\":\"message\"}]}}",
+            "{\"type\":\"response.function_call_arguments.delta\",\"sequence_number\":6,\"output_index\":3,\"delta\":\"{\"}",
+            "{\"type\":\"response.function_call_arguments.done\",\"sequence_number\":7,\"output_index\":3,\"item_id\":\"\",\"arguments\":\"{}\"}",
+            "{\"type\":\"response.function_call_arguments.done\",\"sequence_number\":8,\"item_id\":7,\"arguments\":\"{}\"}",
+        ];
+        let body: String = payloads.iter().map(|p| format!("data: {p}\n\n")).collect();
+        let exp: Vec<(Option<&str>, &str)> = payloads.iter().map(|p| (None, *p)).collect();
+        for (compat, cuts) in [(true, [100usize, 500]), (false, [300, 301])] {
+            let mut c = ev(&body, 0, &cuts, &exp);
+            c.0.compat = compat;
+            all.push(c);
+        }
+    }
+    all
 }
 
 /// set while the harness provokes a u64 overflow on purpose: the panic message is not printed then
